@@ -44,6 +44,19 @@ def skeleton(prog, f, bucket_ty, meta_ty):
     return res
 
 
+def _root_local(f, o, depth=0):
+    """Base local of `&mut x` / copies of it."""
+    p = core.op_place(o)
+    if p is None:
+        return -1
+    ds = f.defs.get(p.l, [])
+    if depth < 8 and len(ds) == 1 and ds[0][2] == "assign" and ds[0][3][2]["k"] in ("ref", "rawptr"):
+        return _root_local(f, {"c": ds[0][3][2]["p"]}, depth + 1)
+    if depth < 8 and len(ds) == 1 and ds[0][2] == "assign" and ds[0][3][2]["k"] == "use":
+        return _root_local(f, ds[0][3][2]["o"], depth + 1)
+    return p.l
+
+
 def run(rep, tier):
     prog = ix.load()
     rep.not_decided = "retrieval-set exactness, score values, counters after arbitrary histories, answers after loading interrupted flushes"
@@ -68,6 +81,46 @@ def run(rep, tier):
     rep.note("flush_skeleton_bm25", s2)
     rep.ob("R11.2", "sibling-skeleton|BTreeIndex::flush_owned_with~BM25Index::flush_with", norm(s1) == norm(s2) and "commit-manifest" in s1,
            "the two manifest-commit implementations must perform the same protocol steps in the same order: btree %s vs bm25 %s" % (s1, s2), f.file + ":%d" % f.line)
+
+    # a bucket is marked saved only up to the version its snapshot was taken at (never up to its live dirty_version)
+    g = prog.fn(BM + "::mark_bucket_saved")
+    rep.saw(g, len(g.events))
+    sites = [(b, st) for b in g.live_blocks() for st in g.stmts(b) if st[0] == "A" and st[1].get("p") and isinstance(st[1]["p"][-1], dict)
+             and st[1]["p"][-1].get("n") == "saved_version"]
+    ok = bool(sites)
+    for (b, st) in sites:
+        ops = core._rvalue_operands(st[2])
+        origins = [o for op in ops for o in g.slice_back_op(op, through=lambda ev: True)]
+        flds = set()
+        for op in ops:
+            flds |= g.slice_fields(op, through=lambda ev: True)
+        if not any(o[0] == "arg" and o[1] == 3 for o in origins) or "dirty_version" in flds:
+            ok = False
+    rep.ob("R11.2", "saved-version-from-snapshot|mark_bucket_saved", ok,
+           "saved_version must be computed from the snapshot's version parameter (and the old saved_version), never from the live dirty_version: "
+           "a mutation that crossed the write would be marked as persisted", g.file + ":%d" % g.line)
+
+    # every token of an inserted document records its bucket for phase 2 (dirty mark + doc_ids), whether or not the posting
+    # list changed: a re-insert that only meets stale identical entries must still get the bucket re-persisted, otherwise the
+    # loader prunes the document's postings (doc_ids of the stored bucket does not list it)
+    ins = prog.fn(BM + "::insert")
+    rep.saw(ins, len(ins.events))
+    pe = [e for e in ins.calls_named(r"dashmap::DashMap::<K, V, S>::entry$") if "postings" in ix.recv_fields(ins, e)]
+    rec = [e for e in ins.calls_named(r"hash::map::HashMap::<K, V, S, A>::entry$")
+           if "std::collections::hash::map::HashMap<u32," in ins.locals[(core.op_place(e.args[0]) or core.Place({"l": 0})).l].replace("&mut ", "")
+           or ins.var_name(_root_local(ins, e.args[0])) == "buckets_to_update"]
+    heads = [e.block for e in ins.calls_named(r"Iterator>?::next$")]
+    ok = bool(pe) and bool(rec)
+    for p_ in pe:
+        loop = [h for h in heads if ins.dominates(h, p_.block) and ins.can_reach([p_.block], [h])]
+        if not loop:
+            ok = False
+            continue
+        if not ins.must_pass({r.block for r in rec}, loop, start=p_.block):
+            ok = False
+    rep.ob("R11.2", "token-bucket-recorded|insert", ok,
+           "in BM25Index::insert every path from a token's posting entry to the next token passes the buckets_to_update.entry(..) record "
+           "(a no-op push must still mark the bucket for re-persisting)", (pe[0].where() if pe else ins.file))
 
     rep.rule("R11.3", "ranking is a total order: all sorts/selects over scored docs use compare_scored_docs (total_cmp + id); truncate after select_nth, then sort", floor=5)
     cmpf = prog.fn(BM + "::compare_scored_docs")
